@@ -1,19 +1,294 @@
-"""C09: the comparison operators of the RLE run detection and of the sparse scan (orso/schema.py)."""
-import ast
+"""C09: the column encodings of orso/schema.py, regenerated from the working tree on every run.
 
-from ..extract import HEADER, Src
+* `Generated/Encodings.lean` — the bodies of RLEColumn.__init__/materialize, SparseColumn.__init__/
+  materialize, DictionaryColumn.__init__/materialize, ConstantColumn.__init__/materialize and
+  FunctionColumn.materialize translated statement by statement (harness/pystmt.py); the dtype
+  decision of SparseColumn.materialize (the guard over the dtype kinds and both branches) as
+  `sparseResultDType`; and the three scalar facts the first version extracted (comparison operator
+  of the run detection, of the sparse scan, initial run length).
+* `Generated/NpDtypes.lean` — dtype kind, item size, integer range, float format of numpy's numeric
+  dtypes and the whole `numpy.promote_types` table, asked of the installed numpy at run time.
+
+Every item degrades to its pinned text when the source (or numpy) is not in the expected shape.
+"""
+import ast
+import os
+import re
+
+from .. import core
+from .. import pystmt_np as pystmt
+from ..extract import GEN_DIR, HEADER, Src
+from ..pystmt_np import Spec, Untranslatable
+from .c09_pinned import PINNED
+
+ELEM_CMP = "(eq : α → α → Bool)"
+
+NUMS = ["bool", "int8", "int16", "int32", "int64", "uint8", "uint16", "uint32", "uint64",
+        "float16", "float32", "float64", "complex64", "complex128"]
+CTOR = {"bool": "bool", "int8": "i8", "int16": "i16", "int32": "i32", "int64": "i64", "uint8": "u8", "uint16": "u16",
+        "uint32": "u32", "uint64": "u64", "float16": "f16", "float32": "f32", "float64": "f64", "complex64": "c64",
+        "complex128": "c128"}
+KINDS = set("biufcUSOMmV")
+
+
+def specs():
+    """(key, (function, class), Spec) for every translated function."""
+    out = []
+    out.append(("rleInit", ("__init__", "RLEColumn"), Spec(
+        "rleInit", "(eq : α → α → Bool) (self_values : List α)", "List α × List Nat",
+        ctx_binders="(eq : α → α → Bool)", ctx_args="eq", cmp={"Eq": "eq"},
+        var_types={"run_values": "List α", "run_lengths": "List Nat", "self.values": "List α", "self.lengths": "List Nat"},
+        init_scope={"self.values": ("self_values", "List α"), "self.lengths": ("self_lengths", "List Nat")},
+        # (`lengths` is a dataclass field with `default_factory=list`: FlatColumn.__init__ sets it to [])
+        prelude=["let self_lengths : List Nat := []"], outputs=["self.values", "self.lengths"],
+        skip_stmts={"super().__init__(**kwargs)"},
+        expect_loops=[["prev_value", "run_length", "run_lengths", "run_values"]], doc="RLEColumn.__init__")))
+    out.append(("rleMaterialize", ("materialize", "RLEColumn"), Spec(
+        "rleMaterialize", "(self_values : List α) (self_lengths : List Nat)", "List α",
+        var_types={"materialized": "List α"},
+        init_scope={"self.values": ("self_values", "List α"), "self.lengths": ("self_lengths", "List Nat")},
+        expect_loops=[["materialized"]], doc="RLEColumn.materialize", frozen_self=True)))
+    out.append(("functionMaterialize", ("materialize", "FunctionColumn"), Spec(
+        "functionMaterialize", "{γ : Type} (binding : γ → α) (configuration : γ) (self_length : Nat)", "List α",
+        env={"self.binding(*self.configuration)": ("binding configuration", "α")},
+        init_scope={"self.length": ("self_length", "Nat")}, expect_loops=[], doc="FunctionColumn.materialize", frozen_self=True)))
+    out.append(("constInit", ("__init__", "ConstantColumn"), Spec(
+        "constInit", "(self_value : α)", "List α", var_types={"self.values": "List α"},
+        init_scope={"self.value": ("self_value", "α")}, outputs=["self.values"],
+        skip_stmts={"super().__init__(**kwargs)"}, expect_loops=[], doc="ConstantColumn.__init__")))
+    out.append(("constMaterialize", ("materialize", "ConstantColumn"), Spec(
+        "constMaterialize", "(self_length : Nat) (self_values : List α)", "List α",
+        init_scope={"self.length": ("self_length", "Nat"), "self.values": ("self_values", "List α")},
+        expect_loops=[], doc="ConstantColumn.materialize", frozen_self=True)))
+    out.append(("sparseInit", ("__init__", "SparseColumn"), Spec(
+        "sparseInit", "(ne : α → α → Bool) (isPyNumber : α → Bool) (self_values : List α) (self_default_value : α)",
+        "List Nat × List α × Nat", cmp={"NotEq": "ne"},
+        env={"(int, float)": ("isPyNumber", ""), "kwargs.get('values', [])": ("values0", "List α")},
+        var_types={"self.values": "List α", "self.indices": "List Nat", "self.total_length": "Nat"},
+        init_scope={"self.values": ("self_values", "List α"), "self.default_value": ("self_default_value", "α")},
+        # (`values` is always passed by keyword: `kwargs.get("values", [])` is the input sequence)
+        prelude=["let values0 : List α := self_values"], outputs=["self.indices", "self.values", "self.total_length"],
+        skip_stmts={"super().__init__(**kwargs)"}, expect_loops=[], doc="SparseColumn.__init__")))
+    out.append(("sparseMaterialize", ("materialize", "SparseColumn"), Spec(
+        "sparseMaterialize", "{DT : Type} (cast : DT → α → Option α) (dtype : DT) (self_values : List α) "
+        "(self_default_value : α) (self_indices : List Nat) (self_total_length : Nat)", "List α",
+        env={"dtype": ("dtype", "DT")}, skip_targets={"kinds", "dtype", "default"},
+        init_scope={"self.values": ("self_values", "List α"), "self.default_value": ("self_default_value", "α"),
+                    "self.indices": ("self_indices", "List Nat"), "self.total_length": ("self_total_length", "Nat")},
+        expect_loops=[], doc="SparseColumn.materialize", frozen_self=True)))
+    out.append(("dictInit", ("__init__", "DictionaryColumn"), Spec(
+        "dictInit", "[DecidableEq α] (le : α → α → Bool) (self_values : List α)", "List α × List Nat",
+        var_types={"self.values": "List α", "self.encoding": "List Nat"},
+        init_scope={"self.values": ("self_values", "List α")}, outputs=["self.values", "self.encoding"],
+        skip_stmts={"super().__init__(**kwargs)"}, expect_loops=[], doc="DictionaryColumn.__init__")))
+    out.append(("dictMaterialize", ("materialize", "DictionaryColumn"), Spec(
+        "dictMaterialize", "(self_values : List α) (self_encoding : List Nat)", "List α",
+        init_scope={"self.values": ("self_values", "List α"), "self.encoding": ("self_encoding", "List Nat")},
+        expect_loops=[], doc="DictionaryColumn.materialize", frozen_self=True)))
+    return out
+
+
+# --------------------------------------------------------------------------- the dtype decision
+
+
+def kind_ctor(ch):
+    if ch not in KINDS:
+        raise Untranslatable("dtype kind %r" % ch)
+    return "Kind." + ch
+
+
+def dtype_decision(fn):
+    """`sparseResultDType`: the `if <test over the dtype kinds>: dtype = A else: dtype = B` of
+    SparseColumn.materialize as a Lean function of the two dtypes."""
+    who = {}  # local array name -> "vdt" / "ddt"
+    for s in fn.body:
+        if isinstance(s, ast.Assign) and len(s.targets) == 1 and isinstance(s.targets[0], ast.Name) \
+                and isinstance(s.value, ast.Call) and ast.unparse(s.value.func) in ("numpy.asarray", "numpy.array") \
+                and len(s.value.args) == 1 and not s.value.keywords:
+            arg = ast.unparse(s.value.args[0])
+            if arg == "self.values":
+                who[s.targets[0].id] = "vdt"
+            elif arg == "self.default_value":
+                who[s.targets[0].id] = "ddt"
+    sets = {}
+
+    def dt(n):
+        """`x.dtype` -> vdt / ddt"""
+        if isinstance(n, ast.Attribute) and n.attr == "dtype" and isinstance(n.value, ast.Name) and n.value.id in who:
+            return who[n.value.id]
+        raise Untranslatable("dtype expression " + ast.unparse(n)[:50])
+
+    def kindset(n):
+        if isinstance(n, ast.Name) and n.id in sets:
+            return sets[n.id]
+        if isinstance(n, ast.Set):
+            items = []
+            for e in n.elts:
+                if isinstance(e, ast.Attribute) and e.attr == "kind":
+                    items.append("%s.kind" % dt(e.value))
+                else:
+                    raise Untranslatable("set element " + ast.unparse(e)[:40])
+            return "[" + ", ".join(items) + "]"
+        if isinstance(n, ast.Call) and ast.unparse(n.func) == "set" and len(n.args) == 1 and isinstance(n.args[0], ast.Constant) \
+                and isinstance(n.args[0].value, str):
+            return "[" + ", ".join(kind_ctor(c) for c in n.args[0].value) + "]"
+        if isinstance(n, ast.Constant) and isinstance(n.value, str):
+            return "[" + ", ".join(kind_ctor(c) for c in n.value) + "]"
+        raise Untranslatable("kind set " + ast.unparse(n)[:50])
+
+    def kind1(n):
+        if isinstance(n, ast.Constant) and isinstance(n.value, str) and len(n.value) == 1:
+            return kind_ctor(n.value)
+        if isinstance(n, ast.Attribute) and n.attr == "kind":
+            return "%s.kind" % dt(n.value)
+        raise Untranslatable("dtype kind " + ast.unparse(n)[:50])
+
+    def test(n):
+        if isinstance(n, ast.BoolOp):
+            j = " || " if isinstance(n.op, ast.Or) else " && "
+            return "(" + j.join(test(v) for v in n.values) + ")"
+        if isinstance(n, ast.UnaryOp) and isinstance(n.op, ast.Not):
+            return "(!%s)" % test(n.operand)
+        if isinstance(n, ast.Compare) and len(n.ops) == 1:
+            op, l, r = n.ops[0], n.left, n.comparators[0]
+            if isinstance(op, ast.LtE):
+                return "(%s).all (fun k => (%s).contains k)" % (kindset(l), kindset(r))
+            if isinstance(op, ast.In):
+                return "(%s).contains (%s)" % (kindset(r), kind1(l))
+            if isinstance(op, ast.NotIn):
+                return "(!(%s).contains (%s))" % (kindset(r), kind1(l))
+            if isinstance(op, (ast.Eq, ast.NotEq)) and isinstance(l, ast.Call) and ast.unparse(l.func) == "len" \
+                    and isinstance(r, ast.Constant) and isinstance(r.value, int):
+                return "(distinctCount (%s) %s %d)" % (kindset(l.args[0]), "==" if isinstance(op, ast.Eq) else "!=", r.value)
+            if isinstance(op, (ast.Eq, ast.NotEq)):
+                return "(%s %s %s)" % (kind1(l), "==" if isinstance(op, ast.Eq) else "!=", kind1(r))
+        raise Untranslatable("dtype test " + ast.unparse(n)[:60])
+
+    def result(stmts):
+        if len(stmts) != 1 or not isinstance(stmts[0], ast.Assign) or ast.unparse(stmts[0].targets[0]) != "dtype":
+            raise Untranslatable("branch of the dtype decision")
+        v = stmts[0].value
+        if isinstance(v, ast.Call) and ast.unparse(v.func) == "numpy.promote_types" and len(v.args) == 2 and not v.keywords:
+            return "NpDType.promote %s %s" % (dt(v.args[0]), dt(v.args[1]))
+        if isinstance(v, ast.Call) and ast.unparse(v.func) == "numpy.dtype" and len(v.args) == 1 and ast.unparse(v.args[0]) == "object":
+            return "NpDType.object"
+        return dt(v)
+
+    found = None
+    for s in fn.body:
+        if isinstance(s, ast.Assign) and len(s.targets) == 1 and isinstance(s.targets[0], ast.Name) and isinstance(s.value, ast.Set):
+            sets[s.targets[0].id] = kindset(s.value)
+        if isinstance(s, ast.If) and "dtype" in pystmt.assigned([s]):
+            if found is not None:
+                raise Untranslatable("two dtype decisions")
+            found = s
+    if found is None:
+        raise Untranslatable("no `if ...: dtype = ... else: dtype = ...`")
+    return "if %s then %s else %s" % (test(found.test), result(found.body), result(found.orelse))
+
+
+# --------------------------------------------------------------------------- numpy's tables
+
+
+def numpy_tables():
+    import numpy
+
+    rows = {}
+    for a in NUMS:
+        d = numpy.dtype(a)
+        row = {"kind": d.kind, "bits": d.itemsize * 8}
+        if d.kind == "b":
+            row["int"] = (0, 1)
+        elif d.kind in "iu":
+            ii = numpy.iinfo(d)
+            row["int"] = (int(ii.min), int(ii.max))
+        else:
+            fi = numpy.finfo(d)
+            row["float"] = (int(fi.nmant) + 1, int(fi.maxexp))
+        row["promote"] = {}
+        for b in NUMS:
+            p = numpy.promote_types(d, numpy.dtype(b)).name
+            if p not in NUMS:
+                raise KeyError("promote_types(%s, %s) = %s" % (a, b, p))
+            row["promote"][b] = p
+        rows[a] = row
+    return {"version": numpy.__version__, "rows": rows}
+
+
+def dtypes_text(t):
+    rows = t["rows"]
+    out = HEADER + "import OrsoVerif.Model.NpNum\n"
+    out += "/-! numpy %s asked at run time: `dtype.kind`, item size, `iinfo`, `finfo`, `promote_types`. -/\n" % t["version"]
+    out += "namespace Gen.NpDtypes\nopen Enc\n\n"
+    out += "def numpyVersion : String := \"%s\"\n\n" % t["version"]
+    out += "/-- `numpy.dtype(name).kind` -/\ndef kind : Num → Kind\n"
+    for a in NUMS:
+        out += "  | .%s => .%s\n" % (CTOR[a], rows[a]["kind"])
+    out += "\n/-- `numpy.dtype(name).itemsize * 8` -/\ndef bits : Num → Nat\n"
+    for a in NUMS:
+        out += "  | .%s => %d\n" % (CTOR[a], rows[a]["bits"])
+    out += "\n/-- `numpy.iinfo(name).min, .max` (`False, True` for bool; none for floats) -/\ndef intRange : Num → Option (Int × Int)\n"
+    for a in NUMS:
+        r = rows[a].get("int")
+        out += "  | .%s => %s\n" % (CTOR[a], "some (%s, %d)" % ("(%d)" % r[0] if r[0] < 0 else "%d" % r[0], r[1]) if r else "none")
+    out += "\n/-- `numpy.finfo(name)`: precision in bits (`nmant + 1`) and `maxexp` (of the components for complex) -/\n"
+    out += "def floatFormat : Num → Option (Nat × Nat)\n"
+    for a in NUMS:
+        r = rows[a].get("float")
+        out += "  | .%s => %s\n" % (CTOR[a], "some (%d, %d)" % tuple(r) if r else "none")
+    out += "\n/-- `numpy.promote_types(a, b)`, all %d pairs -/\ndef promote : Num → Num → Num\n" % (len(NUMS) ** 2)
+    for a in NUMS:
+        for b in NUMS:
+            out += "  | .%s, .%s => .%s\n" % (CTOR[a], CTOR[b], CTOR[rows[a]["promote"][b]])
+    out += "\nend Gen.NpDtypes\n"
+    return out
+
+
+# --------------------------------------------------------------------------- safety net
+
+
+def type_checks(text):
+    """Does the generated file elaborate?  (Only asked when the text differs from the file on disk,
+    which did.)  The translator checks types itself; this catches what it does not foresee, so that
+    a source it mistranslates degrades to the pinned text instead of breaking the model's build."""
+    path = os.path.join(GEN_DIR, "Encodings.lean")
+    try:
+        if open(path).read() == text:
+            return True, ""
+    except OSError:
+        pass
+    tmp = os.path.join(core.LEAN, ".lake", "C09_generated_check.lean")
+    os.makedirs(os.path.dirname(tmp), exist_ok=True)
+    with open(tmp, "w") as f:
+        f.write(text)
+    rc, out = core.sh(["lake", "env", "lean", tmp], cwd=core.LEAN, timeout=600)
+    m = re.search(r"error:[^\n]*", out)
+    return rc == 0, (m.group(0) if m else out[-200:])
+
+
+# --------------------------------------------------------------------------- entry point
 
 
 def generate(o):
     src = Src("orso/schema.py")
 
     def rle_compare():
+        """The comparison under which a value continues the current run (`==` with the increment in the
+        `if` branch, or `!=` with the increment in the `else` branch)."""
         fn = src.func("__init__", "RLEColumn")
         for n in ast.walk(fn):
             if isinstance(n, ast.If) and isinstance(n.test, ast.Compare) and len(n.test.ops) == 1:
                 names = {x.id for x in ast.walk(n.test) if isinstance(x, ast.Name)}
                 if names == {"value", "prev_value"}:
-                    return type(n.test.ops[0]).__name__
+                    def increments(stmts):
+                        return any(isinstance(x, ast.AugAssign) and isinstance(x.op, ast.Add) and ast.unparse(x.target) == "run_length"
+                                   for st in stmts for x in ast.walk(st))
+                    op = type(n.test.ops[0]).__name__
+                    if op == "NotEq" and increments(n.orelse) and not increments(n.body):
+                        return "Eq"
+                    if op == "Eq" and increments(n.orelse) and not increments(n.body):
+                        return "NotEq"
+                    return op
         raise KeyError("if value <op> prev_value")
 
     def run_start():
@@ -30,20 +305,48 @@ def generate(o):
     def sparse_compare():
         fn = src.func("__init__", "SparseColumn")
         for n in ast.walk(fn):
-            if isinstance(n, ast.Compare) and len(n.ops) == 1 and isinstance(n.comparators[0], ast.Attribute) \
-                    and n.comparators[0].attr == "default_value":
+            if isinstance(n, ast.Compare) and len(n.ops) == 1 and isinstance(n.left, ast.Call) \
+                    and ast.unparse(n.left.func) in ("numpy.array", "numpy.asarray") \
+                    and ast.unparse(n.comparators[0]) in ("self.default_value", "default"):
                 return type(n.ops[0]).__name__
-        raise KeyError("<array> <op> self.default_value")
+        raise KeyError("numpy.array(self.values) <op> <default>")
 
     rc = o.item("schema.rle_compare", rle_compare, "Eq")
     rs = o.item("schema.rle_run_start", run_start, 1)
     sc = o.item("schema.sparse_compare", sparse_compare, "NotEq")
-    text = HEADER + "namespace Gen.Encodings\n"
-    text += "/-- `if value == prev_value` in RLEColumn.__init__ (found: %s) -/\n" % rc
-    text += "def rleCompareIsEq : Bool := %s\n" % ("true" if rc == "Eq" else "false")
-    text += "/-- every `run_length = <n>` in RLEColumn.__init__ -/\n"
-    text += "def runStart : Nat := %d\n" % (rs if isinstance(rs, int) and rs >= 0 else 0)
-    text += "/-- `numpy.array(self.values) != self.default_value` in SparseColumn.__init__ (found: %s) -/\n" % sc
-    text += "def sparseCompareIsNe : Bool := %s\n" % ("true" if sc == "NotEq" else "false")
-    text += "end Gen.Encodings\n"
+
+    def assemble(translated, decision):
+        text = HEADER + "import OrsoVerif.Model.Np\nimport OrsoVerif.Model.NpDtype\n"
+        text += "namespace Gen.Encodings\nopen Enc\n"
+        text += "/-- `if value == prev_value` in RLEColumn.__init__ (found: %s) -/\n" % rc
+        text += "def rleCompareIsEq : Bool := %s\n" % ("true" if rc == "Eq" else "false")
+        text += "/-- every `run_length = <n>` in RLEColumn.__init__ -/\n"
+        text += "def runStart : Nat := %d\n" % (rs if isinstance(rs, int) and rs >= 0 else 0)
+        text += "/-- `numpy.array(self.values) != <default>` in SparseColumn.__init__ (found: %s) -/\n" % sc
+        text += "def sparseCompareIsNe : Bool := %s\n\n" % ("true" if sc == "NotEq" else "false")
+        text += "variable {α : Type}\n\n"
+        for key, _, _ in specs():
+            text += translated[key] + "\n\n"
+        text += "/-- the dtype SparseColumn.materialize gives its result: the decision over the dtype kinds of the stored\n"
+        text += "values (`vdt`) and of the default (`ddt`), both branches, as written in the source -/\n"
+        text += "def sparseResultDType (vdt ddt : NpDType) : NpDType :=\n  %s\n\n" % decision
+        text += "end Gen.Encodings\n"
+        return text
+
+    translated = {}
+    for key, (fn, cls), spec in specs():
+        translated[key] = o.item("schema.lean." + key, (lambda fn=fn, cls=cls, spec=spec: pystmt.translate(src.func(fn, cls), spec)),
+                                 PINNED[key])
+    dd = o.item("schema.lean.sparseResultDType", lambda: dtype_decision(src.func("materialize", "SparseColumn")),
+                PINNED["sparseResultDType"])
+    text = assemble(translated, dd)
+    pinned_text = assemble({k: PINNED[k] for k in translated}, PINNED["sparseResultDType"])
+    if text != pinned_text:
+        ok, why = type_checks(text)
+        if not ok and type_checks(pinned_text)[0]:
+            o.degraded.append("schema.lean.* (the translation of the changed source does not elaborate in Lean: %s)" % why[:120])
+            text = pinned_text
     o.files["Encodings.lean"] = text
+
+    tables = o.item("numpy.dtype_tables", numpy_tables, PINNED["numpy_tables"])
+    o.files["NpDtypes.lean"] = dtypes_text(tables)
